@@ -41,7 +41,9 @@ VALID = {
             "CVSS:4.0/AV:L/AC:H/AT:N/PR:L/UI:P/VC:N/VI:N/VA:L/SC:N/SI:N/SA:N/E:U/CR:L/IR:L/AR:L",
             "CVSS:4.0/AV:N/AC:L/AT:N/PR:N/UI:N/VC:H/VI:H/VA:H/SC:H/SI:H/SA:H/MSI:S/MSA:S"],
 }
-INVALID = ["x", "AV:N", "AV:N/AC:L/Au:N/C:P/I:P", "AV:N/AC:L/Au:N/C:P/I:P/A:P/", "AV:N/AC:L/Au:N/C:P/I:P/A:Q",
+INVALID = ["CVSS:3.\u0661/AV:N/AC:L/PR:N/UI:N/S:U/C:H/I:H/A:H", "CVSS:3.\u00b9/AV:N/AC:L/PR:N/UI:N/S:U/C:H/I:H/A:H",
+           "CVSS:4.\uff10/AV:N/AC:L/AT:N/PR:N/UI:N/VC:H/VI:H/VA:H/SC:N/SI:N/SA:N", "(AV:N/AC:L/Au:N/C:P/I:P/A:P)",
+           "x", "AV:N", "AV:N/AC:L/Au:N/C:P/I:P", "AV:N/AC:L/Au:N/C:P/I:P/A:P/", "AV:N/AC:L/Au:N/C:P/I:P/A:Q",
            "AV:N/AC:L/Au:N/C:P/I:P/A:P/A:P", "CVSS:3.1/", "CVSS:3.2/AV:N/AC:L/PR:N/UI:N/S:U/C:H/I:H/A:H",
            "CVSS:3.1/AV:N/AC:L/PR:N/UI:N/S:U/C:H/I:H", "CVSS:3.1/AV:N/AC:L/PR:N/UI:N/S:U/C:H/I:H/A:H/A:H",
            "CVSS:4.0/AV:N/AC:L/AT:N/PR:N/UI:N/VC:H/VI:H/VA:H/SC:H/SI:H",
@@ -226,11 +228,11 @@ def _int_task(t):
     return acc
 
 
-def sub_run(args, stdin_text):
+def sub_run(args, stdin_text, pyflags=()):
     env = dict(os.environ)
     env["PYTHONPATH"] = core.REPO
     env["PYTHONDONTWRITEBYTECODE"] = "1"
-    p = subprocess.Popen([sys.executable, "-m", "cvss.cvss_calculator"] + args, stdin=subprocess.PIPE,
+    p = subprocess.Popen([sys.executable] + list(pyflags) + ["-m", "cvss.cvss_calculator"] + args, stdin=subprocess.PIPE,
                          stdout=subprocess.PIPE, stderr=subprocess.PIPE, env=env, cwd="/")
     out, err = p.communicate(stdin_text.encode("utf-8"))
     return {"status": p.returncode, "exc": None, "out": out.decode("utf-8", "replace"),
@@ -352,15 +354,18 @@ def _sub_task(t):
         acc["n"] += 1
         acc["calls"] += 1
         acc["cmp"] += 1
+        # every fourth run with assertions and docstrings stripped (python -OO): the same program
+        pyflags = ["-OO"] if acc["n"] % 4 == 0 else []
         if vec is None:
-            res = sub_run(args, "")
+            res = sub_run(args, "", pyflags)
             why = cli.basic(res)
         else:
-            res = sub_run(args + ["--vector=" + vec], "")
+            res = sub_run(args + ["--vector=" + vec], "", pyflags)
             why = cli.judge_vector(args, vec, res, "-j" in args)
         if why:
-            sweep.bad(acc, {"what": "python -m cvss.cvss_calculator %s %r (subprocess): %s" % (" ".join(args), vec, why),
-                            "kind": "cli_subprocess", "input": {"args": args, "vector": vec},
+            sweep.bad(acc, {"what": "python %s-m cvss.cvss_calculator %s %r (subprocess): %s" % (
+                "".join(f + " " for f in pyflags), " ".join(args), vec, why),
+                            "kind": "cli_subprocess", "input": {"args": args, "vector": vec, "pyflags": pyflags},
                             "signature": {"kind": "cli_subprocess"}})
         else:
             acc["nontrivial"] += 1
@@ -440,9 +445,10 @@ def replay(case):
         why = acc["bad"][0]["what"] if acc["bad"] else None
     else:
         if i["vector"] is None:
-            why = cli.basic(sub_run(i["args"], ""))
+            why = cli.basic(sub_run(i["args"], "", i.get("pyflags", ())))
         else:
-            why = cli.judge_vector(i["args"], i["vector"], sub_run(i["args"] + ["--vector=" + i["vector"]], ""),
+            why = cli.judge_vector(i["args"], i["vector"],
+                                   sub_run(i["args"] + ["--vector=" + i["vector"]], "", i.get("pyflags", ())),
                                    "-j" in i["args"])
     return bool(why), why or "as the API reports"
 
